@@ -2,7 +2,7 @@
     Model/Backward.v: the depth-first search with execution of src/backward/search.rs (after the repairs
     692df85, 047f79f, ab15463), iterative deepening, the root and sub-goal candidate selection, the condition
     evaluator and rule executor on Horn-style rules, and the specification (forward closure, bounded levels). *)
-From RRE Require Import Base.Sx Base.Float Base.Num Model.ExprShape Model.Forward Model.ForwardSpec Model.Backward Proofs.BackwardProofs.
+From RRE Require Import Base.Sx Base.Float Base.Num Model.ExprShape Model.Forward Model.ForwardSpec Model.Backward Proofs.BackwardProofs Proofs.BackwardClosureProofs.
 Open Scope Z_scope.
 
 (** Soundness: whenever the depth-first search reports a goal provable, the goal comparison is true in the
@@ -23,6 +23,21 @@ Theorem C09_iterative_sound : forall rules max_depth goal f f',
   ids rules max_depth goal f = (true, f') -> goal_holds f' goal = true.
 Proof. exact ids_sound. Qed.
 Print Assumptions C09_iterative_sound.
+
+(** Soundness with respect to the forward closure.  For Horn-style rule sets (positive conditions, scalar
+    conclusions) and EVERY set D of atoms that covers the initial facts and is closed under the rules - in
+    particular the least such set, the forward closure: whatever the search hands back is covered by D, and a
+    goal reported provable is satisfied by an atom of D (or is a `!=` that holds of an absent field). *)
+Theorem C09_result_within_closure : forall rules max_depth D, horn rules -> closedD rules D ->
+  forall goal f b f', covers D f -> dfs rules max_depth goal f = (b, f') -> covers D f'.
+Proof. exact dfs_covers. Qed.
+Print Assumptions C09_result_within_closure.
+
+Theorem C09_proven_goal_in_closure : forall rules max_depth D, horn rules -> closedD rules D ->
+  forall goal f f', covers D f -> dfs rules max_depth goal f = (true, f') ->
+    (exists v, In (b_field goal, v) D /\ goal_sat (Some v) goal = true) \/ goal_sat None goal = true.
+Proof. exact dfs_goal_in_closed. Qed.
+Print Assumptions C09_proven_goal_in_closure.
 
 (** non-vacuity: a sub-goal is proven, the rule then concludes the wrong value - not provable (this was
     reported provable before repair 692df85); with the right value it is provable through the chain *)
